@@ -272,9 +272,9 @@ theorem evalThen_h {g : CMap} {s s' : St} (h : RelH P GA GG GL s s') (hs : StatH
 
 /-! ### statements -/
 
-def okHS (g : CMap) (P : String → Bool) (st : Stmt) : Bool := (namesS st).all P && debugOK g st
-def okHL (g : CMap) (P : String → Bool) (l : List Stmt) : Bool := (namesL l).all P && debugOKL g l
-def okHH (g : CMap) (P : String → Bool) (hs : List Handler) : Bool := (namesH hs).all P && debugOKH g hs
+def okHS (_g : CMap) (P : String → Bool) (st : Stmt) : Bool := (namesS st).all P
+def okHL (_g : CMap) (P : String → Bool) (l : List Stmt) : Bool := (namesL l).all P
+def okHH (_g : CMap) (P : String → Bool) (hs : List Handler) : Bool := (namesH hs).all P
 
 theorem isConst_hoistE (g : CMap) (e : Expr) (h : isConst e = false) : isConst (hoistE g e) = false := by
   cases e <;> simp [isConst] at h <;> simp [hoistE, isConst]
@@ -358,8 +358,7 @@ theorem importFromAll_h (m : Option String) (l : Nat) : ∀ (names : List Alias)
 theorem simpleExec_h {g : CMap} {s s' : St} (h : RelH P GA GG GL s s') (hs : StatH P) (hc : Cons g GG GL) (st : Stmt)
     (hok : okHS g P st = true) : ResRel (RelH P GA GG GL) (simpleExec s st) (simpleExec s' (hoistStmt g st)) := by
   unfold okHS at hok
-  simp only [Bool.and_eq_true] at hok
-  have hn := hok.1
+  have hn := hok
   clear hok
   cases st
   case pass => exact h
@@ -485,53 +484,6 @@ theorem callOf_h (g : CMap) (st : Stmt) :
 
 /-! ### `if` tests and `for` headers -/
 
-mutual
-theorem hoistE_noGhost (g : CMap) : (e : Expr) → hasGhostE g e = false → hoistE g e = e
-  | .constant c, h => by
-    simp only [hasGhostE] at h
-    cases hf : cfind g c with
-    | none => simp [hoistE, hf]
-    | some a => simp [hf] at h
-  | .unaryOp op v, h => by simp only [hoistE, hoistE_noGhost g v (by simpa [hasGhostE] using h)]
-  | .binOp l op r, h => by
-    have hl : hasGhostE g l = false ∧ hasGhostE g r = false := by simpa [hasGhostE] using h
-    simp only [hoistE, hoistE_noGhost g l hl.1, hoistE_noGhost g r hl.2]
-  | .compare l ops cs, h => by
-    have hl : hasGhostE g l = false ∧ hasGhostEs g cs = false := by simpa [hasGhostE] using h
-    simp only [hoistE, hoistE_noGhost g l hl.1, hoistEs_noGhost g cs hl.2]
-  | .boolOp op vs, h => by simp only [hoistE, hoistEs_noGhost g vs (by simpa [hasGhostE] using h)]
-  | .ifExp c a b, h => by
-    have hl : hasGhostE g c = false ∧ hasGhostE g a = false ∧ hasGhostE g b = false := by
-      simpa [hasGhostE, and_assoc] using h
-    simp only [hoistE, hoistE_noGhost g c hl.1, hoistE_noGhost g a hl.2.1, hoistE_noGhost g b hl.2.2]
-  | .call f args kws, h => by simp only [hoistE, hoistEs_noGhost g args (by simpa [hasGhostE] using h)]
-  | .tuple es, h => by simp only [hoistE, hoistEs_noGhost g es (by simpa [hasGhostE] using h)]
-  | .name .., _ => rfl
-  | .namedExpr .., _ => rfl
-  | .lambda .., _ => rfl
-  | .dict .., _ => rfl
-  | .set _, _ => rfl
-  | .listComp .., _ => rfl
-  | .setComp .., _ => rfl
-  | .dictComp .., _ => rfl
-  | .generatorExp .., _ => rfl
-  | .await .., _ => rfl
-  | .yield .., _ => rfl
-  | .yieldFrom .., _ => rfl
-  | .joinedStr .., _ => rfl
-  | .attribute .., _ => rfl
-  | .subscript .., _ => rfl
-  | .starred .., _ => rfl
-  | .list .., _ => rfl
-  | .slice .., _ => rfl
-  | .paren .., _ => rfl
-theorem hoistEs_noGhost (g : CMap) : (es : List Expr) → hasGhostEs g es = false → hoistEs g es = es
-  | [], _ => rfl
-  | e :: rest, h => by
-    have hl : hasGhostE g e = false ∧ hasGhostEs g rest = false := by simpa [hasGhostEs] using h
-    simp only [hoistEs, hoistE_noGhost g e hl.1, hoistEs_noGhost g rest hl.2]
-end
-
 theorem hoistE_eq_name (g : CMap) (e : Expr) (x : String) (c : Ctx) (h : hoistE g e = .name x c) :
     e = .name x c ∨ ∃ k, e = .constant k ∧ cfind g k = some x := by
   cases e <;> simp [hoistE] at h
@@ -542,72 +494,69 @@ theorem hoistE_eq_name (g : CMap) (e : Expr) (x : String) (c : Ctx) (h : hoistE 
     | some a => simp [hf] at h; exact ⟨k, rfl, by rw [hf, h.1]⟩
   case name y c' => left; obtain ⟨h1, h2⟩ := h; subst h1; subst h2; rfl
 
-theorem hoistE_eq_const (g : CMap) (e : Expr) (k : Const) (h : hoistE g e = .constant k) : e = .constant k := by
-  cases e <;> simp [hoistE] at h
-  case constant k' =>
-    cases hf : cfind g k' with
-    | none => simp [hf] at h; rw [h]
-    | some a => simp [hf] at h
+theorem isDbgName_h (g : CMap) (hg : ∀ k a, cfind g k = some a → a ≠ "__debug__") (c : Expr) :
+    isDbgName (hoistE g c) = isDbgName c := by
+  cases c <;> try rfl
+  rename_i k
+  simp only [hoistE]
+  cases hf : cfind g k with
+  | none => rfl
+  | some a =>
+    have := hg k a hf
+    simp [isDbgName, this]
 
-/-- hoisting never makes a `__debug__` test out of something else -/
-theorem isDebugTest_hoist_of (g : CMap) (hg : ∀ k a, cfind g k = some a → a ≠ "__debug__") (c : Expr)
-    (h : isDebugTest (hoistE g c) = true) : isDebugTest c = true := by
-  have hname : ∀ l ctx, hoistE g l = .name "__debug__" ctx → l = .name "__debug__" ctx := by
-    intro l ctx hl
-    rcases hoistE_eq_name g l _ ctx hl with h1 | ⟨k, _, hk⟩
-    · exact h1
-    · exact absurd rfl (hg k _ hk)
-  have hcmp : ∀ l ops cs ctx op k, hoistE g (.compare l ops cs) = .compare (.name "__debug__" ctx) [op] [.constant k] →
-      Expr.compare l ops cs = .compare (.name "__debug__" ctx) [op] [.constant k] := by
-    intro l ops cs ctx op k hh
-    simp only [hoistE, Expr.compare.injEq] at hh
-    obtain ⟨h1, h2, h3⟩ := hh
-    rw [hname l ctx h1, h2]
-    match cs, h3 with
-    | [e], h3 =>
-      simp only [hoistEs, List.cons.injEq, and_true] at h3
-      rw [hoistE_eq_const g e k h3]
-    | [], h3 => simp [hoistEs] at h3
-    | _ :: _ :: _, h3 => simp [hoistEs] at h3
+theorem debugCmp_h (g : CMap) (hg : ∀ k a, cfind g k = some a → a ≠ "__debug__") (c : Expr) :
+    debugCmp (hoistE g c) = (debugCmp c).map (fun p => (p.1, hoistE g p.2)) := by
   cases c
-  case name x ctx => simpa [hoistE] using h
-  case constant k =>
-    unfold isDebugTest at h
-    split at h
-    · rename_i ctx heq
-      rcases hoistE_eq_name g _ _ ctx heq with h1 | ⟨k', h1, hk⟩
-      · cases h1
-      · exact absurd rfl (hg k' _ hk)
-    · rename_i heq; simp only [hoistE] at heq; split at heq <;> cases heq
-    · rename_i heq; simp only [hoistE] at heq; split at heq <;> cases heq
-    · rename_i heq; simp only [hoistE] at heq; split at heq <;> cases heq
-    · simp at h
   case compare l ops cs =>
-    unfold isDebugTest at h
-    split at h
-    · rename_i heq; simp [hoistE] at heq
-    · rename_i ctx heq; rw [hcmp l ops cs ctx _ _ heq]; simp [isDebugTest]
-    · rename_i ctx heq; rw [hcmp l ops cs ctx _ _ heq]; simp [isDebugTest]
-    · rename_i ctx heq; rw [hcmp l ops cs ctx _ _ heq]; simp [isDebugTest]
-    · simp at h
-  all_goals (simp only [hoistE] at h; simp [isDebugTest] at h)
+    cases l
+    case name x ctx =>
+      match ops, cs with
+      | [op], [r] => simp only [hoistE, hoistEs, debugCmp]; split <;> rfl
+      | [], _ => rfl
+      | [_], [] => rfl
+      | [_], _ :: _ :: _ => rfl
+      | _ :: _ :: _, _ => rfl
+    case constant k =>
+      have hr : debugCmp (.compare (.constant k) ops cs) = none := rfl
+      rw [hr]
+      simp only [hoistE, Option.map_none]
+      cases hf : cfind g k with
+      | none => rfl
+      | some a =>
+        have hne : (a == "__debug__") = false := by simpa using hg k a hf
+        match ops, cs with
+        | [op], [r] => simp only [hoistEs, debugCmp, hne]; rfl
+        | [], _ => rfl
+        | [_], [] => rfl
+        | [_], _ :: _ :: _ => rfl
+        | _ :: _ :: _, _ => rfl
+    all_goals (simp only [hoistE]; rfl)
+  case constant k =>
+    simp only [hoistE]
+    cases cfind g k <;> rfl
+  all_goals rfl
 
 theorem condE_h {g : CMap} {s s' : St} (h : RelH P GA GG GL s s') (hs : StatH P) (hc : Cons g GG GL) (c : Expr)
-    (hok : okE P c = true) (hdbg : (!isDebugTest c || !hasGhostE g c) = true) :
-    condE o s' (hoistE g c) = condE o s c := by
+    (hok : okE P c = true) : condE o s' (hoistE g c) = condE o s c := by
   have hg : ∀ k a, cfind g k = some a → a ≠ "__debug__" := by
     intro k a hk hd
     obtain ⟨v, _, hm⟩ := hc k a hk
     have := ghost_not_debug h hs a v hm
     simp [hd] at this
   unfold condE
-  by_cases hd : isDebugTest c = true
-  · have hng : hasGhostE g c = false := by simpa [hd] using hdbg
-    rw [hoistE_noGhost g c hng]
-    simp only [hd, if_true]
-  · have hd' : isDebugTest (hoistE g c) ≠ true := fun hx => hd (isDebugTest_hoist_of g hg c hx)
-    simp only [hd, hd', Bool.false_eq_true, if_false]
-    exact evalE_h h hs hc c hok
+  rw [isDbgName_h g hg c, debugCmp_h g hg c]
+  by_cases hdn : isDbgName c = true
+  · simp only [hdn, if_true]
+  · simp only [hdn, Bool.false_eq_true, if_false]
+    cases hd : debugCmp c with
+    | some p =>
+      obtain ⟨op, e⟩ := p
+      simp only [Option.map_some]
+      rw [evalE_h h hs hc e (debugCmp_names c op e hd hok)]
+    | none =>
+      simp only [Option.map_none]
+      exact evalE_h h hs hc c hok
 
 theorem forRange_h (g : CMap) (tg it : Expr) :
     forRange tg (hoistE g it) = (forRange tg it).map (fun p => (p.1, hoistE g p.2)) := by
@@ -789,8 +738,7 @@ theorem callOf_namesH {g : CMap} (st : Stmt) (f : String) (args : List Expr) (tg
     (h : callOf st = some (f, args, tgt)) (hok : okHS g P st = true) :
     okEs P args = true ∧ ∀ x, tgt = some x → P x = true := by
   unfold okHS at hok
-  simp only [Bool.and_eq_true] at hok
-  have hn := hok.1
+  have hn := hok
   clear hok
   cases st
   case expr e =>
@@ -900,9 +848,9 @@ theorem exec1_h (w : HoistW) (ft : FTab) (hst : StaticOKH w ft) (n : Nat) (ih : 
     (st : Stmt) → (s s' : St) → RelH P GA GG GL s s' → okHS g P st = true →
       ResRel (RelH P GA GG GL) (exec1 ⟨ft, o⟩ n s st) (exec1 ⟨hoistFT w ft, o⟩ n s' (hoistStmt g st))
   | .if_ c body orelse, s, s', h, hok => by
-    have hp : okE P c = true ∧ (!isDebugTest c || !hasGhostE g c) = true ∧ okHL g P body = true ∧ okHL g P orelse = true := by
-      simp only [okHS, okHL, okE, namesS, debugOK, List.all_append, Bool.and_eq_true] at hok ⊢
-      exact ⟨hok.1.1.1, hok.2.1.1, ⟨hok.1.1.2, hok.2.1.2⟩, ⟨hok.1.2, hok.2.2⟩⟩
+    have hp : okE P c = true ∧ okHL g P body = true ∧ okHL g P orelse = true := by
+      simp only [okHS, okHL, okE, namesS, List.all_append, Bool.and_eq_true] at hok ⊢
+      exact ⟨hok.1.1, hok.1.2, hok.2⟩
     simp only [hoistStmt]
     rw [exec1.eq_1, exec1.eq_1]
     show ResRel (RelH P GA GG GL) (match condE o s c with
@@ -913,7 +861,7 @@ theorem exec1_h (w : HoistW) (ft : FTab) (hst : StaticOKH w ft) (n : Nat) (ih : 
         | some (.ok v) => if v.truthy then execL ⟨hoistFT w ft, o⟩ n s' (hoistBody g body) else execL ⟨hoistFT w ft, o⟩ n s' (hoistBody g orelse)
         | some (.error x) => .raised x s'
         | none => .stuck)
-    rw [condE_h h hs hc c hp.1 hp.2.1]
+    rw [condE_h h hs hc c hp.1]
     cases condE o s c with
     | none => trivial
     | some r =>
@@ -921,12 +869,12 @@ theorem exec1_h (w : HoistW) (ft : FTab) (hst : StaticOKH w ft) (n : Nat) (ih : 
       | error x => exact ⟨rfl, h⟩
       | ok v =>
         by_cases hv : v.truthy = true
-        · simp only [hv, if_true]; exact execL_h w ft hst n ih hs hc body s s' h hp.2.2.1
-        · simp only [hv, Bool.false_eq_true, if_false]; exact execL_h w ft hst n ih hs hc orelse s s' h hp.2.2.2
+        · simp only [hv, if_true]; exact execL_h w ft hst n ih hs hc body s s' h hp.2.1
+        · simp only [hv, Bool.false_eq_true, if_false]; exact execL_h w ft hst n ih hs hc orelse s s' h hp.2.2
   | .while_ c body orelse, s, s', h, hok => by
     have hp : okE P c = true ∧ okHL g P body = true ∧ okHL g P orelse = true := by
-      simp only [okHS, okHL, okE, namesS, debugOK, List.all_append, Bool.and_eq_true] at hok ⊢
-      exact ⟨hok.1.1.1, ⟨hok.1.1.2, hok.2.1⟩, ⟨hok.1.2, hok.2.2⟩⟩
+      simp only [okHS, okHL, okE, namesS, List.all_append, Bool.and_eq_true] at hok ⊢
+      exact ⟨hok.1.1, hok.1.2, hok.2⟩
     simp only [hoistStmt]
     cases n with
     | zero =>
@@ -977,8 +925,8 @@ theorem exec1_h (w : HoistW) (ft : FTab) (hst : StaticOKH w ft) (n : Nat) (ih : 
   | .for_ true tg it body orelse, s, s', h, hok => flat_h w ft hst n ih h hs hc _ hok rfl
   | .for_ false tg it body orelse, s, s', h, hok => by
     have hp : okE P tg = true ∧ okE P it = true ∧ okHL g P body = true ∧ okHL g P orelse = true := by
-      simp only [okHS, okHL, okE, namesS, debugOK, List.all_append, Bool.and_eq_true] at hok ⊢
-      exact ⟨hok.1.1.1.1, hok.1.1.1.2, ⟨hok.1.1.2, hok.2.1⟩, ⟨hok.1.2, hok.2.2⟩⟩
+      simp only [okHS, okHL, okE, namesS, List.all_append, Bool.and_eq_true] at hok ⊢
+      exact ⟨hok.1.1.1, hok.1.1.2, hok.1.2, hok.2⟩
     simp only [hoistStmt]
     rw [exec1.eq_4, exec1.eq_4, forRange_h g tg it]
     cases hfr : forRange tg it with
@@ -1006,8 +954,8 @@ theorem exec1_h (w : HoistW) (ft : FTab) (hst : StaticOKH w ft) (n : Nat) (ih : 
   | .try_ true body hs' orelse fin, s, s', h, hok => flat_h w ft hst n ih h hs hc _ hok rfl
   | .try_ false body hs' orelse fin, s, s', h, hok => by
     have hp : okHL g P body = true ∧ okHH g P hs' = true ∧ okHL g P orelse = true ∧ okHL g P fin = true := by
-      simp only [okHS, okHL, okHH, namesS, debugOK, List.all_append, Bool.and_eq_true] at hok ⊢
-      exact ⟨⟨hok.1.1.1.1, hok.2.1.1.1⟩, ⟨hok.1.1.1.2, hok.2.1.1.2⟩, ⟨hok.1.1.2, hok.2.1.2⟩, ⟨hok.1.2, hok.2.2⟩⟩
+      simp only [okHS, okHL, okHH, namesS, List.all_append, Bool.and_eq_true] at hok ⊢
+      exact ⟨hok.1.1.1, hok.1.1.2, hok.1.2, hok.2⟩
     simp only [hoistStmt]
     rw [exec1.eq_5, exec1.eq_5]
     apply withFinally_rel
@@ -1043,8 +991,8 @@ theorem execH_h (w : HoistW) (ft : FTab) (hst : StaticOKH w ft) (n : Nat) (ih : 
   | [], s, s', x, h, _ => by simp only [hoistHandlers]; rw [execH.eq_1, execH.eq_1]; exact ⟨rfl, h⟩
   | .mk ty nm hbody :: rest, s, s', x, h, hok => by
     have hp : okHL g P hbody = true ∧ okHH g P rest = true := by
-      simp only [okHH, okHL, namesH, debugOKH, List.all_append, Bool.and_eq_true] at hok ⊢
-      exact ⟨⟨hok.1.1.2, hok.2.1⟩, ⟨hok.1.2, hok.2.2⟩⟩
+      simp only [okHH, okHL, namesH, List.all_append, Bool.and_eq_true] at hok ⊢
+      exact ⟨hok.1.2, hok.2⟩
     simp only [hoistHandlers]
     rw [execH.eq_2, execH.eq_2]
     cases catches (excKind ty) nm x with
@@ -1060,8 +1008,8 @@ theorem execL_h (w : HoistW) (ft : FTab) (hst : StaticOKH w ft) (n : Nat) (ih : 
   | [], s, s', h, _ => by simp only [hoistBody, execL_nil]; exact h
   | st :: rest, s, s', h, hok => by
     have hp : okHS g P st = true ∧ okHL g P rest = true := by
-      simp only [okHS, okHL, namesL, debugOKL, List.all_append, Bool.and_eq_true] at hok ⊢
-      exact ⟨⟨hok.1.1, hok.2.1⟩, ⟨hok.1.2, hok.2.2⟩⟩
+      simp only [okHS, okHL, namesL, List.all_append, Bool.and_eq_true] at hok ⊢
+      exact hok
     simp only [hoistBody]
     exact execL_cons_rel ft (hoistFT w ft) n s s' st _ rest _ (exec1_h w ft hst n ih hs hc st s s' h hp.1)
       (fun s1 s1' h1 => execL_h w ft hst n ih hs hc rest s1 s1' h1 hp.2)
